@@ -927,10 +927,15 @@ pub fn get_value(
             match function_arg.parse::<i64>() {
                 Ok(val) => {
                     if function_args.is_empty() {
+                        if val <= 0 {
+                            return Variant::empty(VariantType::String);
+                        }
+
                         Variant::from_int(rng.random_range(0..val))
                     } else {
                         let limit = function_args.first().unwrap();
                         match limit.parse::<i64>() {
+                            Ok(limit) if val >= limit => Variant::empty(VariantType::String),
                             Ok(limit) => Variant::from_int(rng.random_range(val..limit)),
                             _ => error_exit(
                                 "Could not parse limit argument of RANDOM function",
